@@ -81,14 +81,20 @@ func c20InstallHook() {
 			}
 			run := v.(*c20Run)
 			i := int(id % 1000)
+			tok := ""
 			switch point {
 			case "natsserver.enqueue":
-				run.log("E" + strconv.Itoa(i))
+				tok = "E"
 			case "natsserver.dequeue":
-				run.log("D" + strconv.Itoa(i))
+				tok = "D"
 			case "natsserver.replied":
-				run.log("P" + strconv.Itoa(i))
+				tok = "P"
+			default:
+				return
 			}
+			run.jitter(uint64(tok[0]), uint64(i), 0)
+			run.log(tok + strconv.Itoa(i))
+			run.jitter(uint64(tok[0]), uint64(i), 1)
 		})
 	})
 }
@@ -98,6 +104,7 @@ type c20Cfg struct {
 	stopPos int   // Stop() is called once this many requests have been published (clipped to the burst)
 	gapUs   int   // pause between two publishes
 	delayUs int   // pause between reaching the stop position and the call of Stop()
+	jitUs   int   // schedule perturbation: pseudo-random pauses up to this long at the yield points (0 = none)
 	durs    []int // handler duration per request, in units of 100 µs
 }
 
@@ -106,29 +113,30 @@ func (c c20Cfg) line() string {
 	for i, d := range c.durs {
 		ds[i] = strconv.Itoa(d)
 	}
-	return fmt.Sprintf("nsrun %d %d %d %d %d %s", c.w, c.q, c.stopPos, c.gapUs, c.delayUs, strings.Join(ds, ","))
+	return fmt.Sprintf("nsrun %d %d %d %d %d %d %s", c.w, c.q, c.stopPos, c.gapUs, c.delayUs, c.jitUs, strings.Join(ds, ","))
 }
 
 func c20ParseCfg(args []string) (c20Cfg, bool) {
 	var c c20Cfg
-	if len(args) != 6 {
+	if len(args) != 7 {
 		return c, false
 	}
-	var err [5]error
+	var err [6]error
 	c.w, err[0] = strconv.Atoi(args[0])
 	c.q, err[1] = strconv.Atoi(args[1])
 	c.stopPos, err[2] = strconv.Atoi(args[2])
 	c.gapUs, err[3] = strconv.Atoi(args[3])
 	c.delayUs, err[4] = strconv.Atoi(args[4])
+	c.jitUs, err[5] = strconv.Atoi(args[5])
 	for _, e := range err {
 		if e != nil {
 			return c, false
 		}
 	}
-	if c.w < 1 || c.w > 64 || c.q < 0 || c.q > 1024 || c.stopPos < 0 || c.gapUs < 0 || c.gapUs > 100000 || c.delayUs < 0 || c.delayUs > 100000 {
+	if c.w < 1 || c.w > 64 || c.q < 0 || c.q > 1024 || c.stopPos < 0 || c.gapUs < 0 || c.gapUs > 100000 || c.delayUs < 0 || c.delayUs > 100000 || c.jitUs < 0 || c.jitUs > 100000 {
 		return c, false
 	}
-	for _, t := range strings.Split(args[5], ",") {
+	for _, t := range strings.Split(args[6], ",") {
 		d, e := strconv.Atoi(t)
 		if e != nil || d < 0 || d > 1000 {
 			return c, false
@@ -168,6 +176,19 @@ func (r *c20Run) log(tok string) {
 	}
 	r.events = append(r.events, tok)
 	r.mu.Unlock()
+}
+
+// jitter pauses the calling goroutine for a pseudo-random time derived from the configuration
+// (not from the clock): it widens the set of interleavings the real run goes through, before the
+// event is logged (the action has happened, the log lags) and after it (the next action lags).
+func (r *c20Run) jitter(kind, i, phase uint64) {
+	if r.cfg.jitUs <= 0 {
+		return
+	}
+	h := NewRng(kind*1000003 + i*7919 + phase*104729 + uint64(r.cfg.jitUs)*31 + uint64(len(r.cfg.durs))).U64()
+	if h%3 == 0 { // a third of the points pause
+		time.Sleep(time.Duration((h>>8)%uint64(r.cfg.jitUs+1)) * time.Microsecond)
+	}
 }
 
 func (r *c20Run) clock() int {
@@ -559,6 +580,7 @@ func c20GenCfg(r *Rng) c20Cfg {
 	c.stopPos = r.Intn(n + 1)
 	c.gapUs = r.Pick(0, 0, 0, 50, 300, 1500)
 	c.delayUs = r.Pick(0, 0, 20, 200, 1000, 4000)
+	c.jitUs = r.Pick(0, 0, 0, 100, 1000, 3000)
 	return c
 }
 
